@@ -92,14 +92,14 @@ def r08_2_single_source(chk):
                     f"`known_dtypes.get(<field name>, <dtype of the data set mapped to that field>)`: two channels mapped "
                     f"on one data set, or a channel with a cast dtype, can be written with another channel's type while "
                     f"their codes differ", fp.func.where)
-    mk = ix.get_method("LogicalFile", "_make_multi_frame_data")
-    ms = chk.summary(mk)
-    calls = [c for c in ms.all_calls() if call_arg(c, kw="known_dtypes") is not None]
-    chk.floor("wrapper constructions in _make_multi_frame_data", len(calls), 1)
+    from ._layout import frame_data_plan
+    plan = frame_data_plan(chk)
+    mk = plan.func
+    chk.floor("wrapper constructions in _make_multi_frame_data", len(plan.alts), 1)
     frp = ("param", mk.param_names[1])
-    for c in calls:
-        chk.require(call_arg(c, kw="known_dtypes") == A(frp, "known_channel_dtypes_mapping")
-                    and call_arg(c, kw="mapping") == A(frp, "channel_name_mapping"), "R08.2",
+    for _conds, c, callee, b in plan.alts:
+        chk.require(callee is not None and b.get("known_dtypes") == A(frp, "known_channel_dtypes_mapping")
+                    and b.get("mapping") == A(frp, "channel_name_mapping"), "R08.2",
                     f"wrapper-gets-frame-mappings:{(call_name(c) or pp(c[1]))[-30:]}",
                     "a data wrapper is built without the frame's channel / cast-dtype mappings", mk.where)
     # the code is (re)derived from the data only while no cast dtype is known: a known one has already sized the chunk
